@@ -16,6 +16,8 @@ import CuqiVerif.Model.C02
         `sample(Ns)`, `warmup(Nb, tune_freq)`, `get_state`/`set_state`,
         assignment of `scale`                                            -> `smpSample`, `smpWarmup`,
                                                                             `smpReload`, `smpRescale`
+        `reinitialize()`, `initial_point = …`, `target = …`              -> `smpReinit`, `PhaseT`, `runSessionT`
+    cuqi/sampler/_sampler.py  `step(x)`, `step_tune(x, *args)`           -> `legStep`, `legStepTune`
     `np.sqrt(1 - scale**2)` for `scale > 1` in `PCN.step` / `pCN.single_update`
                                                                          -> `pcnContractionDefined`, `pcnNanStep`
 
@@ -182,6 +184,46 @@ def runSession {ι : Type} (tn : Tuner) (wk : Window) (dim : Nat) (step : St →
     (s : Smp) (phases : List (Phase ι)) : Smp :=
   phases.foldl (runPhase tn wk dim step fresh) s
 
+/-! ### histories with `reinitialize()`, `initial_point` / `target` re-assignment -/
+
+/-- Phases of a history in which the target may change.  `τ` names targets.
+    `reinit x0 scale0 lam0`: `reinitialize()` — every state and history key is reset and `initialize()` runs
+    again from the CURRENT `initial_point` `x0` (it may have been re-assigned, or mutated in place) with
+    `scale = initial_scale` (`scale0`; `lam0` = its log, `_scale_temp`/`lambd` restart there): the
+    log-density (and gradient) of the CURRENT target are evaluated at `x0`, `_acc = [1]`, `_samples = []`.
+    `retarget t …`: `sampler.target = t` followed by `reinitialize()`. -/
+inductive PhaseT (τ ι : Type)
+  | base (p : Phase ι)
+  | reinit (x0 : Vec) (scale0 : Vec) (lam0 : List XVal)
+  | retarget (t : τ) (x0 : Vec) (scale0 : Vec) (lam0 : List XVal)
+
+/-- sampler + current target + number of (re)initialisations so far (index of the recorded leaves) -/
+structure SmpT (τ : Type) where
+  tgt : τ
+  s : Smp
+  nInit : Nat
+
+/-- `initialize()` inside a history: `evalInit n t x0` = (log-density / log-likelihood, gradient) of target `t`
+    at `x0` (`n` = index of this initialisation: the driver looks the recorded values up by it). The ghost
+    counters of the tie (`nUpd`, `trace`) continue. -/
+def smpReinit {τ : Type} (width : Nat) (evalInit : Nat → τ → Vec → XVal × Vec) (S : SmpT τ) (t : τ)
+    (x0 scale0 : Vec) (lam0 : List XVal) : SmpT τ :=
+  let v := evalInit S.nInit t x0
+  { tgt := t,
+    s := { smpInit width { x := x0, logd := v.1, grad := v.2, scale := scale0 } lam0 with
+             nUpd := S.s.nUpd, trace := S.s.trace },
+    nInit := S.nInit + 1 }
+
+def runPhaseT {τ ι : Type} (tn : Tuner) (wk : Window) (dim width : Nat) (step : τ → St → ι → St × List Bool)
+    (evalInit : Nat → τ → Vec → XVal × Vec) (fresh : Smp) (S : SmpT τ) : PhaseT τ ι → SmpT τ
+  | .base p => { S with s := runPhase tn wk dim (step S.tgt) fresh S.s p }
+  | .reinit x0 scale0 lam0 => smpReinit width evalInit S S.tgt x0 scale0 lam0
+  | .retarget t x0 scale0 lam0 => smpReinit width evalInit S t x0 scale0 lam0
+
+def runSessionT {τ ι : Type} (tn : Tuner) (wk : Window) (dim width : Nat) (step : τ → St → ι → St × List Bool)
+    (evalInit : Nat → τ → Vec → XVal × Vec) (fresh : Smp) (S : SmpT τ) (phases : List (PhaseT τ ι)) : SmpT τ :=
+  phases.foldl (runPhaseT tn wk dim width step evalInit fresh) S
+
 /-! ### the legacy loops `_sample(N, Nb)` and `_sample_adapt(N, Nb)` -/
 
 /-- Loop state of the legacy loops: the stored chain (`samples[:, s]`, `target_eval[s]`,
@@ -286,6 +328,18 @@ def Kernel.tuner : Kernel → Tuner
 def Kernel.window : Kernel → Window
   | .expMH | .expPCN => .last
   | _ => .block
+
+/-- legacy `Sampler.step(x)`: `self.x0 = x; return self.sample(2).samples[:, -1]` — the chain of two states
+    started at `x` with a FRESHLY evaluated cache (`st0` = `x` with the target's values there), last column. -/
+def legStep {ι : Type} (width : Nat) (step : St → ι → St × List Bool) (st0 : St) (inp : ι) : Option Vec :=
+  (legSample width step st0 2 0 [inp]).bind (fun r => (r.1.getLast?).map (·.x))
+
+/-- legacy `Sampler.step_tune(x, *args, **kwargs)`: `out = self.step(x); self.tune(*args, *kwargs); return out`.
+    The legacy `tune()` of MH / CWMH / pCN / MALA is the base-class `pass` and takes no argument: with
+    `nargs > 0` extra arguments it raises `TypeError` (after the step was made) — `none`. -/
+def legStepTune {ι : Type} (width : Nat) (step : St → ι → St × List Bool) (st0 : St) (inp : ι) (nargs : Nat) :
+    Option Vec :=
+  if nargs = 0 then legStep width step st0 inp else none
 
 /-- `scale=None` of legacy MH / pCN: `_sample` refuses (`ValueError`), `_sample_adapt` starts from `0.1`. -/
 def legScaleArg (adapt : Bool) (scale : Option Rat) : Option Rat :=
